@@ -34,6 +34,7 @@ def main (args : List String) : IO UInt32 := do
   | "C02" :: rest => Driver.C02.main rest; return 0
   | "C19" :: rest => Driver.C19.main rest; return 0
   | "C10" :: rest => Driver.C10.main rest; return 0
+  | "C10vec" :: rest => Driver.C10.mainVec rest; return 0
   | "C13" :: rest => Driver.C13.main rest; return 0
   | "C12" :: rest => Driver.C12.main rest; return 0
   | "C06" :: rest => Driver.C06.main rest; return 0
